@@ -1,5 +1,6 @@
 import TantivyModel.Driver.Proto
 import TantivyModel.Model.Reader
+import TantivyModel.Model.Generations
 /-!
 Line protocol of the reader / GC protocol model.
 
@@ -45,6 +46,46 @@ def showRid (r : Rid) : String := toString r.1 ++ "." ++ toString r.2
 def joinOr (l : List String) (sep : String) : String :=
   if l.isEmpty then "-" else sep.intercalate l
 
+/-! generation / inventory / warmer-GC model: `C05 gens <events>`; events `t` track, `w.G` warm,
+`s.G` store, `a.G` abandon, `k` take, `d.G` drop, `g` warmGc (model-computed list), and
+`G.l1,l2,…` = a `Warmer::garbage_collect(list)` call *observed* on the real code: the list must
+contain every generation the model knows to be live, and is applied as the GC's list.
+→ `<ok|bad:i> drawn=<n> live=<…> artifacts=<…> calls=<n>` -/
+
+inductive GIn where
+  | ev (e : Gens.GEv)
+  | obs (l : List Nat)
+
+def parseGIn (s : String) : Option GIn :=
+  match s.splitOn "." with
+  | ["t"] => some (.ev .track)
+  | ["w", g] => do some (.ev (.warm (← g.toNat?)))
+  | ["s", g] => do some (.ev (.store (← g.toNat?)))
+  | ["a", g] => do some (.ev (.abandon (← g.toNat?)))
+  | ["k"] => some (.ev .take)
+  | ["d", g] => do some (.ev (.drop (← g.toNat?)))
+  | ["g"] => some (.ev .warmGc)
+  | ["G", l] => do some (.obs (← natList l))
+  | _ => none
+
+/-- (state, first offending index) -/
+def gensFold : Gens.GSt → List GIn → Nat → Option Nat → Gens.GSt × Option Nat
+  | s, [], _, bad => (s, bad)
+  | s, .ev e :: t, i, bad =>
+    let bad' := match bad with
+      | some b => some b
+      | none => if Gens.gok s e then none else some i
+    gensFold (Gens.gstep s e) t (i + 1) bad'
+  | s, .obs l :: t, i, bad =>
+    let okHere := (Gens.liveList s).all (fun g => l.contains g)
+    let bad' := match bad with
+      | some b => some b
+      | none => if okHere then none else some i
+    let s' : Gens.GSt := { s with gcCalls := l :: s.gcCalls,
+                                  artifacts := s.artifacts.filter (fun g => l.contains g),
+                                  warmedIds := l }
+    gensFold s' t (i + 1) bad'
+
 def handle : List String → String
   | ["trace", d, evs] =>
     match parseDisc d, parseTrace evs with
@@ -74,6 +115,14 @@ def handle : List String → String
     | some ρ, some t => "warmed=" ++ showBool (warmedBeforePublish ρ t) ++ " served=" ++
         (match served ρ (run init t) with | some j => toString j | none => "-")
     | _, _ => "bad-op"
+  | ["gens", evs] =>
+    match (if evs == "-" then some [] else (evs.splitOn ";").mapM parseGIn) with
+    | some t =>
+      let (s, bad) := gensFold Gens.ginit t 0 none
+      (match bad with | none => "ok" | some i => "bad:" ++ toString i) ++
+        " drawn=" ++ toString s.counter ++ " live=" ++ showNatList (Gens.liveList s) ++
+        " artifacts=" ++ showNatList s.artifacts.reverse ++ " calls=" ++ toString s.gcCalls.length
+    | none => "bad-op"
   | ["disc"] =>
     "readerLock=" ++ showBool codeDisc.readerLock ++ " gcLock=" ++ showBool codeDisc.gcLock
   | _ => "bad-op"
